@@ -12,6 +12,7 @@ import (
 	"github.com/golang/snappy"
 	"pgregory.net/rapid"
 
+	"github.com/oasisprotocol/oasis-core/go/common"
 	"github.com/oasisprotocol/oasis-core/go/common/cbor"
 	"github.com/oasisprotocol/oasis-core/go/common/crypto/hash"
 	"github.com/oasisprotocol/oasis-core/go/storage/mkvs"
@@ -19,6 +20,7 @@ import (
 	dbApi "github.com/oasisprotocol/oasis-core/go/storage/mkvs/db/api"
 	"github.com/oasisprotocol/oasis-core/go/storage/mkvs/node"
 	"github.com/oasisprotocol/oasis-core/go/storage/mkvs/syncer"
+	"github.com/oasisprotocol/oasis-core/go/storage/mkvs/writelog"
 
 	"verifharness/kv"
 	"verifharness/mut"
@@ -541,7 +543,71 @@ func buildNodesGroup() ([]*target, error) {
 		kseeds = append(kseeds, seed{fmt.Sprintf("key-%d", len(k)), m})
 	}
 	keys := &target{name: "key-unmarshal", doc: "1 length prefix read, 2 key decoded", seeds: kseeds, wantDepth: 2, run: runKeyBytes, hot: func([]byte) []int { return []int{0, 1} }, cborPercent: -1}
-	return []*target{nodes, keys}, nil
+	// Write logs received from a peer (storage diff sync): CBOR list of {key, value}; applied to a tree and committed
+	// without persisting. Seeds include keys at and beyond the longest addressable key (bit offsets are 16 bit wide).
+	var wseeds, wextra []seed
+	mkLog := func(name string, good bool, entries ...writelog.LogEntry) {
+		sd := seed{name, cbor.Marshal(writelog.WriteLog(entries))}
+		if good {
+			wseeds = append(wseeds, sd)
+		} else {
+			wextra = append(wextra, sd)
+		}
+	}
+	mkLog("wl-small", true, writelog.LogEntry{Key: []byte("a"), Value: []byte("1")}, writelog.LogEntry{Key: []byte("ab"), Value: []byte("2")}, writelog.LogEntry{Key: []byte("a"), Value: nil})
+	mkLog("wl-empty-key", true, writelog.LogEntry{Key: []byte{}, Value: []byte{}}, writelog.LogEntry{Key: []byte("k"), Value: bytes.Repeat([]byte{7}, 300)})
+	long := func(n int, last byte) []byte { return append(bytes.Repeat([]byte{0x41}, n-1), last) }
+	mkLog("wl-keys-node.MaxKeySize", true, writelog.LogEntry{Key: long(node.MaxKeySize, 0x41), Value: []byte("a")}, writelog.LogEntry{Key: long(node.MaxKeySize, 0x42), Value: []byte("b")})
+	mkLog("wl-keys-8192", false, writelog.LogEntry{Key: long(node.MaxKeySize+1, 0x41), Value: []byte("a")}, writelog.LogEntry{Key: long(node.MaxKeySize+1, 0x42), Value: []byte("b")})
+	mkLog("wl-key-8192-single", false, writelog.LogEntry{Key: long(node.MaxKeySize+1, 0x41), Value: []byte("a")})
+	mkLog("wl-keys-9000", false, writelog.LogEntry{Key: long(9000, 0x41), Value: []byte("a")}, writelog.LogEntry{Key: long(9000, 0x42), Value: []byte("b")})
+	wlApply := &target{name: "writelog-apply", doc: "input = CBOR write log as a peer serves it: 1 decoded, 2 applied to a tree and committed (no persistence), 3 every entry reads back",
+		seeds: wseeds, extra: wextra, wantDepth: 3, run: runWriteLogApply, hostile: true, weight: 2}
+	return []*target{nodes, keys, wlApply}, nil
+}
+
+func runWriteLogApply(in []byte) outcome {
+	var wl writelog.WriteLog
+	if err := cbor.Unmarshal(in, &wl); err != nil {
+		return outcome{digest: errDigest(err)}
+	}
+	o := outcome{depth: 1}
+	tr := mkvs.New(nil, nil, node.RootTypeState)
+	defer tr.Close()
+	if err := tr.ApplyWriteLog(bg, writelog.NewStaticIterator(wl)); err != nil {
+		o.digest = errDigest(err)
+		return o
+	}
+	var ns common.Namespace
+	_, rh, err := tr.Commit(bg, ns, 1, mkvs.NoPersist())
+	if err != nil {
+		o.digest = errDigest(err)
+		return o
+	}
+	o.depth = 2
+	// the last entry per key decides; every key reads back accordingly
+	last := map[string][]byte{}
+	present := map[string]bool{}
+	for _, e := range wl {
+		last[string(e.Key)], present[string(e.Key)] = e.Value, e.Value != nil
+	}
+	for k, v := range last {
+		got, err := tr.Get(bg, []byte(k))
+		if err != nil || (present[k] && !bytes.Equal(got, v)) || (!present[k] && got != nil) {
+			o.rt = fmt.Sprintf("write log applied without error but key %x (%d bytes) reads %x / %v, log says %x (present=%v)", firstBytes([]byte(k), 8), len(k), firstBytes(got, 8), err, firstBytes(v, 8), present[k])
+			return o
+		}
+	}
+	o.depth = 3
+	o.digest = digestOf(rh[:])
+	return o
+}
+
+func firstBytes(b []byte, n int) []byte {
+	if len(b) > n {
+		return b[:n]
+	}
+	return b
 }
 
 // ---------------------------------------------------------------------------------------
